@@ -16,7 +16,7 @@ PROPERTY = 'C05'
 RULE = ('histories (operation lists) of Model / AttackerAttachment calls with valid and invalid arguments: '
         'add_asset (requested name incl. duplicates, id in {None,0,-1,-2,3,live id,removed id}, '
         'allow_duplicate_names), remove_asset (live / removed / foreign), add_association (single and '
-        'multi-member, self links, duplicate pair, repeated member, same object again), remove_association, '
+        'multi-member, self links, reflexive associations holding the same assets on both sides, duplicate pair, repeated member, same object again), remove_association, '
         'remove_asset_from_association (1-member field, multi-member field, non-member), add/remove attacker, '
         'add/remove entry point - bounded-exhaustive over a 17-operation alphabet on a tiny language, random '
         'over a tiny fixed language and generated languages. Oracle: abstract reference model (mtv/ref_model.py) '
@@ -162,10 +162,17 @@ class Run:
                 self.removed_ids.append(ref.assets[h]['id'])
                 ref.remove_asset(h)
                 self.events.add('removal')
-        elif kind == 'add_assoc':
+        elif kind in ('add_assoc', 'add_assoc_reflexive'):
             _, k, ls, rs = o
             if not self.spec['associations']:
                 return
+            if kind == 'add_assoc_reflexive':
+                # an association both of whose ends accept the same assets; the right side re-uses left members
+                refl = [i for i, a in enumerate(self.spec['associations'])
+                        if self.L.lca(a['leftAsset'], a['rightAsset']) in (a['leftAsset'], a['rightAsset'])]
+                if not refl:
+                    return
+                k = refl[k % len(refl)]
             k = k % len(self.spec['associations'])
             d = self.spec['associations'][k]
             lc = [h for h in ref.live_assets() if self.L.is_sub(ref.assets[h]['type'], d['leftAsset'])]
@@ -174,6 +181,14 @@ class Run:
                 return
             left = [lc[i % len(lc)] for i in ls]
             right = [rc[i % len(rc)] for i in rs]
+            if kind == 'add_assoc_reflexive':
+                both = [h for h in lc if h in rc]
+                if not both:
+                    return
+                left = [both[i % len(both)] for i in ls]
+                right = [left[i % len(left)] for i in rs] if rs[0] % 2 == 0 else [both[i % len(both)] for i in rs]
+                lm, rm = d['leftMultiplicity']['max'], d['rightMultiplicity']['max']
+                left, right = left[:lm or 3], right[:rm or 3]
             verdict = ref.verdict_add_assoc(self.spec, k, left, right)
             if set(left) & set(right):
                 self.events.add('self-link')
@@ -423,6 +438,16 @@ def _enum(tier):
             yield {'spec': None, 'ops': [ALPHABET[i] for i in seq]}
 
 
+PREFIX = [['add_asset', 0, 0, 0, True], ['add_asset', 0, 1, 0, True], ['add_asset', 2, 3, 0, True]]
+
+
+def _enum_populated(tier):
+    """the same alphabet, starting from a model that already holds two hosts and a data asset"""
+    for ln in range(1, 3 if tier == 'quick' else 4):
+        for seq in itertools.product(range(len(ALPHABET)), repeat=ln):
+            yield {'spec': None, 'ops': PREFIX + [ALPHABET[i] for i in seq]}
+
+
 def _op_strategy():
     i = st.integers
     small = st.integers(0, 5)
@@ -434,6 +459,11 @@ def _op_strategy():
                   st.lists(small, min_size=1, max_size=3)),
         st.tuples(st.just('add_assoc'), small, st.lists(small, min_size=1, max_size=1),
                   st.lists(small, min_size=1, max_size=1)),
+        st.tuples(st.just('add_assoc_reflexive'), small, st.lists(small, min_size=1, max_size=3),
+                  st.lists(small, min_size=1, max_size=3)),
+        st.tuples(st.just('add_assoc_reflexive'), small, st.lists(small, min_size=2, max_size=3, unique=True),
+                  st.lists(st.integers(0, 2).map(lambda x: 2 * x), min_size=1, max_size=2, unique=True)),
+        st.tuples(st.just('remove_from_assoc'), st.integers(1, 11), small),
         st.tuples(st.just('readd_assoc'), small),
         st.tuples(st.just('remove_assoc'), small),
         st.tuples(st.just('remove_from_assoc'), st.integers(0, 11), small),
@@ -464,10 +494,12 @@ def corelang_histories(draw, max_ops=20):
 CLAUSES = [
     Clause('short-histories-exhaustive', check_case, kind='exhaustive', enumerate=_enum,
            space='all operation sequences of length <=3 (quick) / <=4 (thorough) over a 17-operation alphabet on the tiny language'),
+    Clause('short-histories-from-populated-model', check_case, kind='exhaustive', enumerate=_enum_populated,
+           space='all operation sequences of length <=2 (quick) / <=3 (thorough) over the same alphabet, applied to a model that already holds two hosts and a data asset'),
     Clause('tiny-language-histories', check_case, kind='random', strategy=lambda: tiny_histories(25),
-           budget={'quick': 1200, 'thorough': 20000}),
+           budget={'quick': 3000, 'thorough': 30000}),
     Clause('generated-language-histories', check_case, kind='random', strategy=lambda: lang_histories(25),
-           budget={'quick': 600, 'thorough': 8000}),
+           budget={'quick': 1500, 'thorough': 12000}),
     Clause('corelang-histories', check_case, kind='random', strategy=lambda: corelang_histories(20),
            budget={'quick': 320, 'thorough': 4000}),
     Clause('long-histories', check_case, kind='random', strategy=lambda: tiny_histories(40),
